@@ -6,7 +6,7 @@ part of `np.loadtxt(path, dtype=…, ndmin=…)` those loaders rely on (default 
 "number of columns changed" `ValueError`, and `_ensure_ndmin_ndarray` (squeeze of one-row / one-column
 tables for `ndmin=0`; `ndmin=1` for `bases_path`; NO squeeze for `ndmin=2`).
 
-The loaders are modelled AS THEY ARE AFTER THE PROPOSED FIX F16 (`proposed/F16_loadtxt_ndmin.diff`): the samples
+The loaders are modelled as they are since fix F18 (`proposed/F18_loadtxt_ndmin.diff`, applied in /repo e29340c): the samples
 file and the `tr_bases_path` file are read with `ndmin=2` (always 2-D, shape `(N, n)` also for `N = 1` or `n = 1`);
 the target files keep the default `ndmin=0` (a target has `2^n ≥ 2` rows and `≥ 2` columns) and `bases_path`
 keeps `ndmin=1` (the word form of tutorial 3: one basis word per line gives a 1-D array of words).
@@ -101,7 +101,7 @@ def shapeTable2 {τ : Type} (rows : List (List τ)) : Except PyErr (Arr τ) :=
     if rest.all (fun r => r.length == r0.length) then .ok (.mat (r0 :: rest))
     else .error .ValueError
 
-/-- `np.loadtxt(path, dtype=str, ndmin=2)` (`tr_bases_path` after F16) -/
+/-- `np.loadtxt(path, dtype=str, ndmin=2)` (`tr_bases_path` after F18) -/
 def loadtxtStr2 (cs : List Char) : Except PyErr (Arr Token) :=
   shapeTable2 (tokenize cs)
 
@@ -136,7 +136,7 @@ def loadtxtNum {ν : Type} (parse : Token → Option ν) (round : ν → ν) (cs
   | .error e => .error e
   | .ok rows => shapeTable false rows
 
-/-- `torch.tensor(np.loadtxt(path, dtype="float32", ndmin=2), dtype=torch.double)` (the samples file after F16):
+/-- `torch.tensor(np.loadtxt(path, dtype="float32", ndmin=2), dtype=torch.double)` (the samples file after F18):
 as `loadtxtNum`, without the squeeze. -/
 def loadtxtNum2 {ν : Type} (parse : Token → Option ν) (round : ν → ν) (cs : List Char) : Except PyErr (Arr ν) :=
   match convertRows parse round (tokenize cs) with
@@ -181,7 +181,7 @@ def optStr2 {ν : Type} : Option (List Char) → Except PyErr (List (Item ν))
     | .ok a => .ok [Item.str a]
 
 /-- optional trailing string tables shared by both loaders (`data.py:50-56`, `106-111`):
-`tr_bases_path` with `ndmin=2` (F16), then `bases_path` with `ndmin=1`. -/
+`tr_bases_path` with `ndmin=2` (F18), then `bases_path` with `ndmin=1`. -/
 def loadBases {ν : Type} (trBases bases : Option (List Char)) : Except PyErr (List (Item ν)) :=
   match optStr2 trBases with
   | .error e => .error e
@@ -204,7 +204,7 @@ def optPsi {ν : Type} [Inhabited ν] (parse : Token → Option ν) (round : ν 
 
 /-- `load_data(tr_samples_path, tr_psi_path, tr_bases_path, bases_path)`: `[samples, target_psi?, tr_bases?, bases?]`
 in this order, files read in this order (so the first failing file determines the error). The samples are read
-with `ndmin=2` (F16), the target with the default `ndmin=0`. -/
+with `ndmin=2` (F18), the target with the default `ndmin=0`. -/
 def loadData {ν : Type} [Inhabited ν] (parse : Token → Option ν) (round : ν → ν)
     (samples : List Char) (psi trBases bases : Option (List Char)) : Except PyErr (List (Item ν)) :=
   match loadtxtNum2 parse round samples with
